@@ -6,16 +6,34 @@ From Twig Require Import Base.Bytes Gen.LockMap Model.Sched Spec.SchedSpec.
 
 (* a cache entry for n holds the parse of THE source of n; one that came from a loader is for a name the loaders have *)
 Definition sc_entry_ok (w : sc_world) (n : bytes) (e : sc_entry) : Prop :=
-  exists s, sc_src_of w n = Some s /\ sc_parse s = Some (en_tpl e) /\
-            (en_loader e <> None -> sc_loaders_src (w_loaders w) n = Some s).
+  exists s, sc_src_of w n = Some s /\ sc_parse s = Some (en_tpl e) /\ en_name e = sc_name_of w n /\
+            (en_loader e <> None -> sc_loaders_src (w_loaders w) n = Some s /\ assoc_bytes (w_regt w) n = None).
+
+(* what a step is told by GetModifiedTime *)
+Definition sc_stat_of (w : sc_world) (i : nat) (n : bytes) : option Z :=
+  match nth_error (w_loaders w) i with
+  | Some l => if ld_fs l then sc_loader_mtime l n else None
+  | None => None
+  end.
+
+(* an entry left over from an earlier phase whose file has changed since: every Load that meets it reads the
+   loaders again (caching is off, or auto-reload is on and the loader reports a later modification time) *)
+Definition sc_entry_stale (w : sc_world) (n : bytes) (e : sc_entry) : Prop :=
+  assoc_bytes (w_reg w) n = None /\ assoc_bytes (w_regt w) n = None /\
+  exists li, en_loader e = Some li /\
+    (w_cache w = false \/
+     (w_auto w = true /\ sc_loader_ts w li = true /\
+      match sc_stat_of w li n with Some t => Z.gtb t (en_mtime e) = true | None => True end)).
+
+Definition sc_entry_fine (w : sc_world) (n : bytes) (e : sc_entry) : Prop := sc_entry_ok w n e \/ sc_entry_stale w n e.
 
 (* the memo of a FileSystemLoader remembers where the search finds the file *)
 Definition sc_memo_ok (l : sc_loader) (memo : list (bytes * nat)) : Prop :=
   forall n d, assoc_bytes memo n = Some d -> exists f, sc_loader_find l n = Some (d, f).
 
 Record sc_inv (w : sc_world) (sh : sc_shared) : Prop := mk_sc_inv {
-  inv_cache : forall n e, assoc_bytes (sh_cache sh) n = Some e -> sc_entry_ok w n e;
-  inv_reg : forall n, assoc_bytes (w_reg w) n <> None -> assoc_bytes (sh_cache sh) n <> None;
+  inv_cache : forall n e, assoc_bytes (sh_cache sh) n = Some e -> sc_entry_fine w n e;
+  inv_reg : forall n, assoc_bytes (w_reg w) n <> None \/ assoc_bytes (w_regt w) n <> None -> assoc_bytes (sh_cache sh) n <> None;
   inv_memo : forall i l, nth_error (w_loaders w) i = Some l -> sc_memo_ok l (nth i (sh_memo sh) []);
   inv_attr : forall ty a e, sc_attr_lookup (sh_attrs sh) ty a = Some e -> e = sc_attr_resolve w ty a
 }.
@@ -25,9 +43,11 @@ Definition sc_resp_ok (w : sc_world) (op : sc_op) (a : sc_resp) : Prop :=
   match op with
   | ScOpCacheRead n =>
       exists o, a = ScRCache o /\
-                match o with Some e => sc_entry_ok w n e | None => assoc_bytes (w_reg w) n = None end
+                match o with Some e => sc_entry_fine w n e
+                           | None => assoc_bytes (w_reg w) n = None /\ assoc_bytes (w_regt w) n = None end
   | ScOpLoaderRead _ i n =>
       a = ScRSrc (match nth_error (w_loaders w) i with Some l => sc_loader_get l n | None => None end)
+  | ScOpLoaderStat i n => a = ScRStat (sc_stat_of w i n)
   | ScOpLoaderExists i n =>
       a = ScRBool (match nth_error (w_loaders w) i with
                    | Some l => match sc_loader_get l n with Some _ => true | None => false end
@@ -118,12 +138,15 @@ Proof.
     split; [exact Hinv|]. exists (assoc_bytes (sh_cache sh) n). split; [reflexivity|].
     destruct (assoc_bytes (sh_cache sh) n) as [e|] eqn:E.
     + apply (inv_cache _ _ Hinv _ _ E).
-    + destruct (assoc_bytes (w_reg w) n) eqn:Er; [|reflexivity].
-      exfalso. apply (inv_reg _ _ Hinv n); [rewrite Er; discriminate|exact E].
+    + split.
+      * destruct (assoc_bytes (w_reg w) n) eqn:Er; [|reflexivity].
+        exfalso. apply (inv_reg _ _ Hinv n); [left; rewrite Er; discriminate|exact E].
+      * destruct (assoc_bytes (w_regt w) n) eqn:Er; [|reflexivity].
+        exfalso. apply (inv_reg _ _ Hinv n); [right; rewrite Er; discriminate|exact E].
   - (* cache write *)
     split; [|exact I]. constructor; simpl.
     + intros n' e' H. destruct (bytes_eqb n n') eqn:En.
-      * apply bytes_eqb_eq in En. subst n'. inversion H; subst e'. exact Hwf.
+      * apply bytes_eqb_eq in En. subst n'. inversion H; subst e'. left. exact Hwf.
       * apply (inv_cache _ _ Hinv _ _ H).
     + intros n' Hr. destruct (bytes_eqb n n'); [discriminate|]. apply (inv_reg _ _ Hinv _ Hr).
     + apply (inv_memo _ _ Hinv).
@@ -138,11 +161,15 @@ Proof.
       intros j l' Hl'. pose proof (sc_memo_upd w sh i l n Hinv El j l' Hl') as H. rewrite Elk in H. exact H.
     + rewrite Hs1. unfold sc_loader_get. destruct (sc_loader_find l n) as [[d f]|]; reflexivity.
   - (* loader stat *)
-    destruct (nth_error (w_loaders w) i) as [l|] eqn:El; [|split; [exact Hinv|exact I]].
-    destruct (ld_fs l) eqn:Efs; [|split; [exact Hinv|exact I]].
-    destruct (sc_fs_lookup l (nth i (sh_memo sh) []) n) as [o memo'] eqn:Elk. simpl. split; [|exact I].
-    constructor; simpl; try apply Hinv.
-    intros j l' Hl'. pose proof (sc_memo_upd w sh i l n Hinv El j l' Hl') as H. rewrite Elk in H. exact H.
+    unfold sc_stat_of.
+    destruct (nth_error (w_loaders w) i) as [l|] eqn:El; [|split; [exact Hinv|reflexivity]].
+    destruct (ld_fs l) eqn:Efs; [|split; [exact Hinv|reflexivity]].
+    destruct (sc_fs_lookup l (nth i (sh_memo sh) []) n) as [o memo'] eqn:Elk. simpl.
+    pose proof (sc_fs_lookup_spec l (nth i (sh_memo sh) []) n (inv_memo _ _ Hinv _ _ El)) as [Hs1 Hs2].
+    rewrite Elk in Hs1, Hs2. simpl in Hs1, Hs2. split.
+    + constructor; simpl; try apply Hinv.
+      intros j l' Hl'. pose proof (sc_memo_upd w sh i l n Hinv El j l' Hl') as H. rewrite Elk in H. exact H.
+    + rewrite Hs1. unfold sc_loader_mtime. destruct (sc_loader_find l n) as [[d f]|]; reflexivity.
   - (* exists *)
     destruct (nth_error (w_loaders w) i) as [l|]; (split; [exact Hinv|reflexivity]).
   - split; [exact Hinv|exact I].
@@ -168,7 +195,19 @@ Qed.
 (* ---- the configured engine satisfies the invariant ---- *)
 Lemma sc_init_cache_spec reg n e :
   assoc_bytes (sc_init_cache reg) n = Some e ->
-  exists s, In (n, s) reg /\ sc_parse s = Some (en_tpl e) /\ en_loader e = None.
+  exists s, In (n, s) reg /\ sc_parse s = Some (en_tpl e) /\ en_loader e = None /\ en_name e = n.
+Proof.
+  induction reg as [|[n' s'] r IH]; simpl; [discriminate|].
+  destruct (sc_parse s') as [t|] eqn:Ep; simpl.
+  - destruct (bytes_eqb n' n) eqn:En.
+    + intro H. inversion H; subst e. apply bytes_eqb_eq in En. subst n'. exists s'. simpl. auto.
+    + intro H. destruct (IH H) as [s [Hi Hr]]. exists s. split; [right; exact Hi|exact Hr].
+  - intro H. destruct (IH H) as [s [Hi Hr]]. exists s. split; [right; exact Hi|exact Hr].
+Qed.
+
+Lemma sc_init_cache_t_spec reg n e :
+  assoc_bytes (sc_init_cache_t reg) n = Some e ->
+  exists s, In (n, s) reg /\ sc_parse s = Some (en_tpl e) /\ en_loader e = None /\ en_name e = [].
 Proof.
   induction reg as [|[n' s'] r IH]; simpl; [discriminate|].
   destruct (sc_parse s') as [t|] eqn:Ep; simpl.
@@ -188,15 +227,51 @@ Proof.
   - exfalso. apply (Hp n' s'); [left; reflexivity|exact Ep].
 Qed.
 
+Lemma sc_init_cache_t_has reg n :
+  (forall n' s', In (n', s') reg -> sc_parse s' <> None) ->
+  assoc_bytes reg n <> None -> assoc_bytes (sc_init_cache_t reg) n <> None.
+Proof.
+  induction reg as [|[n' s'] r IH]; simpl; intros Hp H; [exfalso; apply H; reflexivity|].
+  destruct (sc_parse s') as [t|] eqn:Ep.
+  - simpl. destruct (bytes_eqb n' n); [discriminate|]. apply IH; [intros; eapply Hp; right; eassumption|exact H].
+  - exfalso. apply (Hp n' s'); [left; reflexivity|exact Ep].
+Qed.
+
+Lemma sc_assoc_app {A} (a b : list (bytes * A)) n :
+  assoc_bytes (a ++ b) n = match assoc_bytes a n with Some x => Some x | None => assoc_bytes b n end.
+Proof.
+  induction a as [|[k v] r IH]; simpl; [reflexivity|]. destruct (bytes_eqb k n); [reflexivity|exact IH].
+Qed.
+
+Lemma sc_in_assoc {A} (l : list (bytes * A)) n v : In (n, v) l -> assoc_bytes l n <> None.
+Proof.
+  induction l as [|[k x] r IH]; simpl; [contradiction|]. intros [H|H].
+  - inversion H; subst. rewrite bytes_eqb_refl. discriminate.
+  - destruct (bytes_eqb k n); [discriminate|apply IH; exact H].
+Qed.
+
 Lemma sc_nth_map_nil {A B} (l : list A) i : nth i (map (fun _ => @nil B) l) [] = [].
 Proof. revert i. induction l; intros [|i]; simpl; auto. Qed.
 
 Lemma sc_init_inv w : sc_world_ok w -> sc_inv w (sc_init_shared w).
 Proof.
-  intro Hw. constructor; simpl.
-  - intros n e H. apply sc_init_cache_spec in H. destruct H as [s [Hi [Hp Hl]]].
-    destruct (Hw _ _ Hi) as [Hs _]. exists s. split; [exact Hs|split; [exact Hp|]]. intro C. rewrite Hl in C. contradiction.
-  - intros n H. apply sc_init_cache_has; [|exact H]. intros n' s' Hi. apply (Hw _ _ Hi).
+  intros [Hw Hwt]. constructor; simpl.
+  - intros n e H. left. rewrite sc_assoc_app in H.
+    destruct (assoc_bytes (sc_init_cache (w_reg w)) n) as [e0|] eqn:E0.
+    + inversion H; subst e0. apply sc_init_cache_spec in E0. destruct E0 as [s [Hi [Hp [Hl Hn]]]].
+      destruct (Hw _ _ Hi) as [Hs [_ Hnt]]. exists s. split; [exact Hs|split; [exact Hp|split]].
+      * unfold sc_name_of. rewrite Hnt. exact Hn.
+      * intro C. rewrite Hl in C. contradiction.
+    + apply sc_init_cache_t_spec in H. destruct H as [s [Hi [Hp [Hl Hn]]]].
+      destruct (Hwt _ _ Hi) as [Hs _]. exists s. split; [exact Hs|split; [exact Hp|split]].
+      * unfold sc_name_of. pose proof (sc_in_assoc _ _ _ Hi) as Hne.
+        destruct (assoc_bytes (w_regt w) n); [exact Hn|contradiction Hne; reflexivity].
+      * intro C. rewrite Hl in C. contradiction.
+  - intros n H. rewrite sc_assoc_app.
+    destruct (assoc_bytes (sc_init_cache (w_reg w)) n) eqn:E0; [discriminate|].
+    destruct H as [H|H].
+    + exfalso. revert E0. apply sc_init_cache_has; [|exact H]. intros n' s' Hi. apply (Hw _ _ Hi).
+    + apply sc_init_cache_t_has; [|exact H]. intros n' s' Hi. apply (Hwt _ _ Hi).
   - intros i l _. rewrite sc_nth_map_nil. intros n d H. discriminate.
   - intros ty a e H. discriminate.
 Qed.
@@ -237,32 +312,35 @@ Definition sc_val_of_src (n : bytes) (s : sc_src) : sc_lres :=
   match sc_parse s with None => ScLBad | Some t => ScLOk n t end.
 
 Lemma sc_detv_finish w n s li mt :
+  assoc_bytes (w_regt w) n = None ->
   sc_loaders_src (w_loaders w) n = Some s -> sc_detv w (sc_val_of_src n s) (sc_finish w n s li mt).
 Proof.
-  intro Hs. unfold sc_finish, sc_val_of_src. apply sc_detv_intern.
+  intros Hnr Hs. unfold sc_finish, sc_val_of_src. apply sc_detv_intern.
   destruct (sc_parse s) as [t|] eqn:Ep; [|constructor].
   destruct (w_cache w); [|constructor].
   apply ScDStep; [|intros; constructor].
-  simpl. exists s. simpl. split; [unfold sc_src_of; rewrite Hs; reflexivity|split; [exact Ep|intros _; exact Hs]].
+  simpl. exists s. simpl. split; [unfold sc_src_of; rewrite Hs; reflexivity|split; [exact Ep|split]].
+  - unfold sc_name_of. rewrite Hnr. reflexivity.
+  - intros _. split; [exact Hs|exact Hnr].
 Qed.
 
 Definition sc_reload_val (w : sc_world) (n : bytes) : sc_lres :=
   match sc_loaders_src (w_loaders w) n with Some s => sc_val_of_src n s | None => ScLNotFound end.
 
-Lemma sc_detv_loader_loop w n : forall ls i,
+Lemma sc_detv_loader_loop w n : assoc_bytes (w_regt w) n = None -> forall ls i,
   (forall j, nth_error (w_loaders w) (i + j) = nth_error ls j) ->
   sc_loaders_src (w_loaders w) n = sc_loaders_src ls n ->
   sc_detv w (sc_reload_val w n) (sc_loader_loop w n i ls).
 Proof.
-  induction ls as [|l rest IH]; intros i Hn Hsrc; simpl.
+  intro Hnr. induction ls as [|l rest IH]; intros i Hn Hsrc; simpl.
   - unfold sc_reload_val. rewrite Hsrc. simpl. constructor.
   - apply ScDStep; [exact I|]. intros a Ha. simpl in Ha.
     pose proof (Hn 0) as H0. rewrite Nat.add_0_r in H0. simpl in H0. rewrite H0 in Ha. subst a.
     simpl in Hsrc. destruct (sc_loader_get l n) as [s|] eqn:Eg.
     + assert (Hval : sc_reload_val w n = sc_val_of_src n s) by (unfold sc_reload_val; rewrite Hsrc; reflexivity).
       rewrite Hval. destruct (ld_fs l).
-      * apply ScDStep; [exact I|]. intros a2 _. apply sc_detv_finish. exact Hsrc.
-      * apply sc_detv_finish. exact Hsrc.
+      * apply ScDStep; [exact I|]. intros a2 _. apply sc_detv_finish; [exact Hnr|exact Hsrc].
+      * apply sc_detv_finish; [exact Hnr|exact Hsrc].
     + apply IH; [|exact Hsrc]. intro j. pose proof (Hn (S j)) as Hj. simpl in Hj. rewrite <- Hj. f_equal. lia.
 Qed.
 
@@ -278,44 +356,57 @@ Proof.
   - apply IH. intro j. pose proof (Hn (S j)) as Hj. simpl in Hj. rewrite <- Hj. f_equal. lia.
 Qed.
 
-Lemma sc_detv_reload w n : sc_detv w (sc_reload_val w n) (sc_reload w n).
+Lemma sc_detv_reload w n : assoc_bytes (w_regt w) n = None -> sc_detv w (sc_reload_val w n) (sc_reload w n).
 Proof.
-  unfold sc_reload. destruct (w_chain w).
+  intro Hnr. unfold sc_reload. destruct (w_chain w).
   - destruct (w_loaders w) as [|l0 ls0] eqn:El.
     + unfold sc_reload_val. rewrite El. simpl. constructor.
     + rewrite <- El. eapply sc_detv_bind.
       * apply sc_detv_chain_loop. intro j. reflexivity.
       * unfold sc_reload_val. destruct (sc_loaders_src (w_loaders w) n) as [s|] eqn:Es; [|constructor].
-        apply sc_detv_finish. exact Es.
-  - apply sc_detv_loader_loop; [intro j; reflexivity|reflexivity].
+        apply sc_detv_finish; [exact Hnr|exact Es].
+  - apply sc_detv_loader_loop; [exact Hnr|intro j; reflexivity|reflexivity].
 Qed.
 
 (* what Load(n) returns, whatever the other goroutines do *)
 Definition sc_load_val (w : sc_world) (n : bytes) : sc_lres :=
-  match sc_src_of w n with Some s => sc_val_of_src n s | None => ScLNotFound end.
+  match sc_src_of w n with Some s => sc_val_of_src (sc_name_of w n) s | None => ScLNotFound end.
 
 Lemma sc_detv_load w n : sc_detv w (sc_load_val w n) (sc_load w n).
 Proof.
   unfold sc_load. apply ScDStep; [exact I|]. intros a [o [-> Ho]].
-  assert (Hre : forall s, sc_loaders_src (w_loaders w) n = Some s -> sc_load_val w n = sc_reload_val w n).
-  { intros s Hs. unfold sc_load_val, sc_reload_val, sc_src_of. rewrite Hs. reflexivity. }
+  assert (Hre : assoc_bytes (w_regt w) n = None ->
+                (sc_loaders_src (w_loaders w) n <> None \/ assoc_bytes (w_reg w) n = None) ->
+                sc_load_val w n = sc_reload_val w n).
+  { intros Hnr Hc. unfold sc_load_val, sc_reload_val, sc_src_of, sc_name_of. rewrite Hnr.
+    destruct (sc_loaders_src (w_loaders w) n); [reflexivity|].
+    destruct Hc as [Hc|Hc]; [exfalso; apply Hc; reflexivity|rewrite Hc; reflexivity]. }
   destruct o as [e|].
-  - destruct Ho as [s [Hs [Hp Hl]]].
-    assert (Hv : sc_load_val w n = ScLOk n (en_tpl e)).
-    { unfold sc_load_val, sc_val_of_src. rewrite Hs, Hp. reflexivity. }
-    destruct (en_loader e) as [li|] eqn:Eli.
-    + assert (Hls : sc_loaders_src (w_loaders w) n = Some s) by (apply Hl; discriminate).
-      destruct (w_cache w).
-      * destruct (negb (w_auto w)); [rewrite Hv; constructor|].
-        destruct (sc_loader_ts w li); [|rewrite Hv; constructor].
-        apply ScDStep; [exact I|]. intros a2 _.
-        destruct a2 as [| | |[t|]| | |]; try (rewrite (Hre _ Hls); apply sc_detv_reload).
-        destruct (Z.gtb t (en_mtime e)); [rewrite (Hre _ Hls); apply sc_detv_reload|rewrite Hv; constructor].
-      * rewrite (Hre _ Hls). apply sc_detv_reload.
-    + rewrite Hv. constructor.
-  - assert (Hv : sc_load_val w n = sc_reload_val w n).
-    { unfold sc_load_val, sc_reload_val, sc_src_of. destruct (sc_loaders_src (w_loaders w) n); [reflexivity|]. rewrite Ho. reflexivity. }
-    rewrite Hv. apply sc_detv_reload.
+  - destruct Ho as [Ho|Ho].
+    + (* a current entry *)
+      destruct Ho as [s [Hs [Hp [Hname Hl]]]].
+      assert (Hv : sc_load_val w n = ScLOk (en_name e) (en_tpl e)).
+      { unfold sc_load_val, sc_val_of_src. rewrite Hs, Hp, Hname. reflexivity. }
+      destruct (en_loader e) as [li|] eqn:Eli.
+      * destruct Hl as [Hls Hnr]; [discriminate|].
+        assert (Hr : sc_load_val w n = sc_reload_val w n) by (apply Hre; [exact Hnr|left; rewrite Hls; discriminate]).
+        destruct (w_cache w).
+        -- destruct (negb (w_auto w)); [rewrite Hv; constructor|].
+           destruct (sc_loader_ts w li); [|rewrite Hv; constructor].
+           apply ScDStep; [exact I|]. intros a2 _.
+           destruct a2 as [| | |[t|]| | |]; try (rewrite Hr; apply sc_detv_reload; exact Hnr).
+           destruct (Z.gtb t (en_mtime e)); [rewrite Hr; apply sc_detv_reload; exact Hnr|rewrite Hv; constructor].
+        -- rewrite Hr. apply sc_detv_reload. exact Hnr.
+      * rewrite Hv. constructor.
+    + (* an entry left over from before the file changed: every path reads the loaders again *)
+      destruct Ho as [Hreg [Hnr [li [Eli Hmode]]]]. rewrite Eli.
+      rewrite (Hre Hnr (or_intror Hreg)).
+      destruct (w_cache w) eqn:Ec; [|apply sc_detv_reload; exact Hnr].
+      destruct Hmode as [Hc|[Ha [Hts Hst]]]; [discriminate|].
+      rewrite Ha, Hts. simpl.
+      apply ScDStep; [exact I|]. intros a2 Ha2. simpl in Ha2. subst a2.
+      destruct (sc_stat_of w li n) as [t|]; [rewrite Hst|]; apply sc_detv_reload; exact Hnr.
+  - destruct Ho as [Hreg Hnr]. rewrite (Hre Hnr (or_intror Hreg)). apply sc_detv_reload. exact Hnr.
 Qed.
 
 Lemma sc_det_load w n : sc_det w (sc_load w n).
@@ -388,7 +479,9 @@ Proof.
   - apply sc_det_intern. destruct (sc_parse s); [apply sc_det_render|apply sc_det_ret].
   - apply sc_det_intern. destruct (sc_parse s) as [t|] eqn:Ep; [|apply sc_det_ret].
     exists (ScOOk []). apply ScDStep; [|intros; constructor].
-    simpl. exists s. simpl in Hc. simpl. split; [exact Hc|split; [exact Ep|]]. intro C. contradiction.
+    simpl. exists s. simpl in Hc. destruct Hc as [Hc Hnr]. simpl. split; [exact Hc|split; [exact Ep|split]].
+    + unfold sc_name_of. rewrite Hnr. reflexivity.
+    + intro C. contradiction.
 Qed.
 
 Lemma sc_det_thread w fuel cs : Forall (sc_call_consistent w) cs -> sc_det w (sc_thread_prog fuel ScVCtx w cs).
@@ -439,14 +532,19 @@ Proof.
   unfold sc_run. induction sched as [|i r IH]; intros st H; simpl; [exact H|]. apply IH. apply sc_step_good. exact H.
 Qed.
 
+Lemma sc_threads_det fuel w threads :
+  Forall (Forall (sc_call_consistent w)) threads ->
+  exists rs, Forall2 (sc_detv w) rs (map (sc_thread_prog fuel ScVCtx w) threads).
+Proof.
+  intro Hc. induction Hc as [|cs r Hcs Hr IH]; simpl; [exists []; constructor|].
+  destruct IH as [rs Hrs]. destruct (sc_det_thread w fuel cs Hcs) as [r0 Hr0]. exists (r0 :: rs). constructor; assumption.
+Qed.
+
 Lemma sc_init_good fuel w threads :
   sc_consistent_sources w threads -> exists rs, sc_good w rs (sc_init_with fuel ScVCtx w threads).
 Proof.
-  intros [Hw Hc].
-  assert (H : exists rs, Forall2 (sc_detv w) rs (map (sc_thread_prog fuel ScVCtx w) threads)).
-  { induction Hc as [|cs r Hcs Hr IH]; simpl; [exists []; constructor|].
-    destruct IH as [rs Hrs]. destruct (sc_det_thread w fuel cs Hcs) as [r0 Hr0]. exists (r0 :: rs). constructor; assumption. }
-  destruct H as [rs Hrs]. exists rs. split; [apply sc_init_inv; exact Hw|exact Hrs].
+  intros [Hw Hc]. destruct (sc_threads_det fuel w threads Hc) as [rs Hrs].
+  exists rs. split; [apply sc_init_inv; exact Hw|exact Hrs].
 Qed.
 
 Lemma sc_good_results w rs st i r :
@@ -806,7 +904,7 @@ Definition sc_w_pinned : sc_world :=
          (b#"a/part", mk_sc_file (ScSrcTpl (mk_sc_tpl None [ScItFlat (ScFText b#"A")] [])) 0%Z);
          (b#"c/main", mk_sc_file (ScSrcTpl (mk_sc_tpl None [ScItInclude b#"./part"] [])) 0%Z);
          (b#"c/part", mk_sc_file (ScSrcTpl (mk_sc_tpl None [ScItFlat (ScFText b#"C")] [])) 0%Z)]]]
-    false [] [] true false.
+    false [] [] [] true false.
 
 Definition sc_thr_pinned : list (list sc_call) := [[ScCRender false b#"a/main" []]; [ScCRender false b#"c/main" []]].
 (* thread 0 reads and writes the cell (a/main), thread 1 reads and writes it (c/main), then thread 0 runs on and
@@ -828,7 +926,7 @@ Lemma C02_refuted_pinned_proof :
   sc_common_lock (ScOpCellWrite b#"a/main") (ScOpCellWrite b#"c/main") = false.
 Proof.
   split.
-  - split; [intros n s H; inversion H|].
+  - split; [split; intros n s H; inversion H|].
     repeat constructor.
   - repeat split; vm_compute; reflexivity.
 Qed.
@@ -838,3 +936,76 @@ Lemma sc_pinned_workload_now :
   sc_results (sc_run sc_w_pinned sc_sched_pinned (sc_init 5 sc_w_pinned sc_thr_pinned))
     = [Some [ScOOk b#"A"]; Some [ScOOk b#"C"]].
 Proof. vm_compute. reflexivity. Qed.
+
+(* ================================================================== 7. phases: files rewritten while no call is running *)
+
+(* The start of a phase: the engine as earlier phases left it, seen from the world as it is now. sc_inv w sh says
+   that every cached entry is either the parse of the source the name has now, or is left over from before its
+   file changed and will be read again by every Load that meets it (caching off, or auto-reload on with a
+   timestamp-aware loader that now reports a later modification time); that registered names are still in the
+   map; that the loader memos still point where the search finds the files. *)
+Definition sc_phase_start_ok (w : sc_world) (sh : sc_shared) : Prop := sc_inv w sh.
+
+Lemma C02_first_phase_start_ok_proof : forall w, sc_world_ok w -> sc_phase_start_ok w (sc_init_shared w).
+Proof. exact sc_init_inv. Qed.
+
+Lemma C02_phase_equals_serial_proof :
+  forall fuel w sh threads sched order k,
+    sc_phase_start_ok w sh -> Forall (Forall (sc_call_consistent w)) threads ->
+    sc_complete (sc_run w sched (sc_phase_state fuel w sh threads)) = true ->
+    sc_complete (sc_run w (sc_serial_schedule order k) (sc_phase_state fuel w sh threads)) = true ->
+    sc_results (sc_run w sched (sc_phase_state fuel w sh threads))
+    = sc_results (sc_run w (sc_serial_schedule order k) (sc_phase_state fuel w sh threads)).
+Proof.
+  intros fuel w sh threads sched order k Hinv Hc H1 H2. unfold sc_phase_state in *. rewrite sc_cur_variant_ctx in *.
+  destruct (sc_threads_det fuel w threads Hc) as [rs Hrs].
+  assert (Hg : sc_good w rs (mk_sc_state sh (map (sc_thread_prog fuel ScVCtx w) threads))) by (split; assumption).
+  rewrite (sc_good_complete w rs _ (sc_run_good w rs sched _ Hg) H1).
+  rewrite (sc_good_complete w rs _ (sc_run_good w rs _ _ Hg) H2). reflexivity.
+Qed.
+
+(* whatever the schedule, a phase leaves the engine in a state that is a good start for the same world *)
+Lemma C02_phase_end_ok_proof :
+  forall fuel w sh threads sched,
+    sc_phase_start_ok w sh -> Forall (Forall (sc_call_consistent w)) threads ->
+    sc_phase_start_ok w (st_sh (sc_run w sched (sc_phase_state fuel w sh threads))).
+Proof.
+  intros fuel w sh threads sched Hinv Hc. unfold sc_phase_state. rewrite sc_cur_variant_ctx.
+  destruct (sc_threads_det fuel w threads Hc) as [rs Hrs].
+  assert (Hg : sc_good w rs (mk_sc_state sh (map (sc_thread_prog fuel ScVCtx w) threads))) by (split; assumption).
+  apply (sc_run_good w rs sched _ Hg).
+Qed.
+
+(* the seeded scenario in the model: a/t cached from the first phase, its file rewritten with a later time stamp,
+   auto-reload on; the left-over entry is a good start and both goroutines of the second phase get the new text *)
+Definition sc_w_ph (txt : bytes) (mt : Z) : sc_world :=
+  mk_sc_world [mk_sc_loader true [[(b#"a/t.twig", mk_sc_file (ScSrcTpl (mk_sc_tpl None [ScItFlat (ScFText txt)] [])) mt)]]]
+    false [] [] [] true true.
+Definition sc_sh_ph : sc_shared :=
+  st_sh (sc_run (sc_w_ph b#"old" 10) (repeat 0 40) (sc_init 5 (sc_w_ph b#"old" 10) [[ScCRender false b#"a/t.twig" []]])).
+
+Lemma sc_phase_example :
+  sc_results (sc_run (sc_w_ph b#"new" 20) ([0; 1; 0; 1; 1; 0] ++ repeat 0 40 ++ repeat 1 40)
+                (sc_phase_state 5 (sc_w_ph b#"new" 20) sc_sh_ph [[ScCRender false b#"a/t.twig" []]; [ScCRender true b#"a/t.twig" []]]))
+  = [Some [ScOOk b#"new"]; Some [ScOOk b#"new"]].
+Proof. vm_compute. reflexivity. Qed.
+
+(* the hypothesis of the phase theorem holds at the start of that second phase, through the left-over entry *)
+Lemma sc_phase_example_start_ok : sc_phase_start_ok (sc_w_ph b#"new" 20) sc_sh_ph.
+Proof.
+  assert (Hsh : sc_sh_ph = mk_sc_shared
+            [(b#"a/t.twig", mk_sc_entry (mk_sc_tpl None [ScItFlat (ScFText b#"old")] []) b#"a/t.twig" (Some 0) 10%Z)]
+            [[(b#"a/t.twig", 0)]] [] [] []) by (vm_compute; reflexivity).
+  unfold sc_phase_start_ok. rewrite Hsh. constructor; simpl.
+  - intros n e H. destruct (bytes_eqb b#"a/t.twig" n) eqn:En; [|discriminate].
+    apply bytes_eqb_eq in En. subst n. inversion H; subst e. right.
+    split; [reflexivity|split; [reflexivity|]]. exists 0. split; [reflexivity|]. right.
+    split; [reflexivity|split; [vm_compute; reflexivity|vm_compute; reflexivity]].
+  - intros n [H|H]; exfalso; apply H; reflexivity.
+  - intros [|i] l Hl; simpl in Hl.
+    + inversion Hl; subst l. simpl. intros n d H. simpl in H.
+      destruct (bytes_eqb b#"a/t.twig" n) eqn:En; [|discriminate].
+      apply bytes_eqb_eq in En. subst n. inversion H; subst d. eexists. vm_compute. reflexivity.
+    + destruct i; discriminate.
+  - intros ty a e H. discriminate.
+Qed.
